@@ -1464,6 +1464,43 @@ fn eval_c05_rule_inner(x: &[i128], include_non_interleaving: bool) -> Result<(),
 }
 
 
+/// C05, second sentence, taken literally on a rule-only DST zone: every valid result of the search, converted back with the same
+/// zone (DateTime::from_timespec), reproduces the searched fields and the returned local time type.  Replays known finding F5.
+fn eval_c05_roundtrip(x: &[i128]) -> Result<(), Mismatch> {
+    let a = dec_alt(x);
+    let local = x[12];
+    let alt = match real_alt(&a) {
+        Some(Ok(alt)) => alt,
+        _ => return Ok(()),
+    };
+    let types = [*alt.std(), *alt.dst()];
+    let rule = Some(TransitionRule::Alternate(alt));
+    let tz = match TimeZoneRef::new(&[], &types, &[], &rule) {
+        Ok(tz) => tz,
+        Err(_) => return Ok(()),
+    };
+    let f = o::fields(local);
+    let list = match DateTime::find(f.0 as i32, f.1 as u8, f.2 as u8, f.3 as u8, f.4 as u8, f.5 as u8, 0, tz) {
+        Ok(l) => l.into_inner(),
+        Err(_) => return Ok(()),
+    };
+    for k in list {
+        if let FoundDateTimeKind::Normal(d) = k {
+            let want = format!("from_timespec({}) = Ok with fields {:?} and is_dst {}", d.unix_time(), (f.0, f.1, f.2, f.3, f.4, f.5), d.local_time_type().is_dst());
+            match DateTime::from_timespec(d.unix_time(), 0, tz) {
+                Ok(b) => {
+                    let got = (b.year() as i128, b.month() as i128, b.month_day() as i128, b.hour() as i128, b.minute() as i128, b.second() as i128);
+                    if got != (f.0, f.1, f.2, f.3, f.4, f.5) || b.local_time_type().is_dst() != d.local_time_type().is_dst() {
+                        return Err((want, format!("Ok with fields {:?} and is_dst {}", got, b.local_time_type().is_dst())));
+                    }
+                }
+                Err(e) => return Err((want, format!("Err({e:?})"))),
+            }
+        }
+    }
+    Ok(())
+}
+
 /// C06 at the junction of a transition table with a trailing DST rule: the last table transition sits exactly on a
 /// rule-generated instant; a local time in that gap is reported by exactly one Skipped entry and nothing else, a local
 /// time in the fold at a backward junction by exactly two valid results
@@ -1541,6 +1578,7 @@ const PROBES: &[Probe] = &[
     Probe { name: "C05/table_search", property: "C05", gen: gen_c14_search, eval: eval_c05_table },
     Probe { name: "C05/rule_search", property: "C05", gen: gen_c05_rule, eval: eval_c05_rule },
     Probe { name: "C05/rule_search_full", property: "-", gen: gen_none, eval: eval_c05_rule_full },
+    Probe { name: "C05/roundtrip_full", property: "-", gen: gen_none, eval: eval_c05_roundtrip },
     Probe { name: "C06/table_search", property: "C06", gen: gen_c14_search, eval: eval_c05_table },
     Probe { name: "C06/rule_search", property: "C06", gen: gen_c05_rule, eval: eval_c05_rule },
     Probe { name: "C06/junction_gap", property: "C06", gen: gen_c06_junction, eval: eval_c06_junction },
